@@ -103,6 +103,8 @@ class Worker(Router):
             )
         except asyncio.CancelledError as exc:
             logger.critical("Worker was cancelled.", exc_info=exc)
+            if self.health_check_server is not None:
+                await self.health_check_server.stop()
             raise
 
         await runner.finish_gracefully(timeout=self.graceful_shutdown_time)
